@@ -73,6 +73,7 @@ type Grammar struct {
 	Ambiguous bool     // derivation tree is not the unique parse tree: no derivation-based expectations
 	Tight     bool     // whitespace may be omitted next to literal tokens
 	Seps      []string // separators (ignored-token text) used between tokens; default " "
+	Optional  bool     // seeded random grammar: dropped (not failed) if gocc refuses it
 	NoCompile bool     // header/actions are not valid Go in the harness module (text taken from elsewhere)
 	RawText   string   // if set, the grammar is this text (no IR); only gocc-level checks use it
 
